@@ -191,7 +191,10 @@ fn gen_duel(rs: u64, index: u64, _tier: Tier) -> Scenario {
         let port = if same_port { 8000 } else { 8000 + d as u16 };
         // in a host duel the instances differ (only the host name is contested) in half of the worlds
         let instance = if host_duel && rng.bool() { format!("{inst} {d}") } else { inst.to_string() };
-        let spec = base_spec(&instance, &host, &format!("192.168.1.{}", 10 + d), port, &format!("d{d}"));
+        let mut spec = base_spec(&instance, &host, &format!("192.168.1.{}", 10 + d), port, &format!("d{d}"));
+        if index % 3 == 2 {
+            spec.ty = "_printer._sub._duel._tcp.local.".into(); // registered with a subtype: one more PTR in every packet
+        }
         s.op(t, Op::Register { d, svc: spec });
         t_regs.push(t);
     }
@@ -275,7 +278,10 @@ fn gen_inject(rs: u64, index: u64, _tier: Tier) -> Scenario {
         1 => host = format!("{}.local.", "h".repeat(61 + rng.below(2) as usize)),
         _ => {}
     }
-    let spec = base_spec(&inst, &host, "192.168.1.10", 8000, "mine");
+    let mut spec = base_spec(&inst, &host, "192.168.1.10", 8000, "mine");
+    if index % 3 == 1 {
+        spec.ty = "_printer._sub._duel._tcp.local.".into();
+    }
     let t_reg = 100 + rng.below(200);
     s.op(t_reg, Op::Register { d: 0, svc: spec.clone() });
     let full = fullname_of(&spec);
